@@ -110,6 +110,8 @@ static std::map<int, std::string> images;
 static std::map<int, std::istringstream *> streams;
 static std::map<int, std::vector<int>> stream_imgs;
 static std::string g_cur;  // the call being executed (for memerr events)
+static int g_cur_h = -1;   // the dictionary handle it works on (-1: none)
+static std::map<int, int> it_owner;
 
 static std::string esc(const std::string &s) {
   std::string r;
@@ -161,7 +163,7 @@ static void asan_cb(const char *rep) {
   if (ap == std::string::npos) ap = r.find("freed by thread");
   if (ap != std::string::npos) alloc = first_repo_frame(ap);
   emit("{\"e\":\"memerr\",\"class\":\"" + esc(cls) + "\",\"access\":\"" + acc + "\",\"site\":\"" + esc(site) + "\",\"alloc\":\"" + esc(alloc) +
-       "\",\"during\":\"" + esc(g_cur) + "\"}");
+       "\",\"h\":" + std::to_string(g_cur_h) + ",\"during\":\"" + esc(g_cur) + "\"}");
 }
 #endif
 
@@ -260,7 +262,22 @@ static void exec_line(const std::string &line) {
   std::string op;
   ss >> op;
   g_cur = line.size() > 80 ? line.substr(0, 80) : line;
-  emit("{\"e\":\"_op\",\"l\":\"" + esc(g_cur) + "\"}");
+  {
+    std::istringstream s3(line);
+    std::string o3;
+    int a = -1, b = -1;
+    s3 >> o3 >> a >> b;
+    g_cur_h = -1;
+    if (o3 == "B" || o3 == "N" || o3 == "M" || o3 == "L" || o3 == "E" || o3 == "ER" || o3 == "LR" || o3 == "LP" || o3 == "LS" || o3 == "EP" ||
+        o3 == "ES" || o3 == "ET" || o3 == "S" || o3 == "D")
+      g_cur_h = a;
+    else if (o3 == "IH" || o3 == "IN" || o3 == "ID" || o3 == "SH" || o3 == "SN" || o3 == "SD" || o3 == "CI")
+      g_cur_h = it_owner.count(a) ? it_owner[a] : -1;
+    else if (o3 == "LG")
+      g_cur_h = b;
+    if (o3 == "LP" || o3 == "LS" || o3 == "EP" || o3 == "ES" || o3 == "ET") it_owner[b] = a;
+  }
+  emit("{\"e\":\"_op\",\"h\":" + std::to_string(g_cur_h) + ",\"l\":\"" + esc(g_cur) + "\"}");
   {
     // calls on a handle that does not exist (its load returned NULL) are not made
     static const char *hops[] = {"N", "M", "L", "E", "ER", "LR", "LP", "LS", "EP", "ES", "ET", "S", "D"};
@@ -514,21 +531,26 @@ int main(int argc, char **argv) {
     fprintf(out, "{\"e\":\"Reset\",\"prog\":\"%s\"}\n", pid_.c_str());
     // drop the _op markers, remember the last one
     std::string last;
+    int last_h = -1;
     size_t p = 0;
     while (p < buf.size()) {
       size_t e = buf.find('\n', p);
       if (e == std::string::npos) break;  // partial line of a dying child: dropped
-      if (buf.compare(p, 11, "{\"e\":\"_op\",") == 0) last = buf.substr(p + 16, e - p - 16 - 2);
+      if (buf.compare(p, 11, "{\"e\":\"_op\",") == 0) {
+        last_h = atoi(buf.c_str() + p + 15);
+        size_t q = buf.find("\"l\":\"", p);
+        last = buf.substr(q + 5, e - q - 5 - 2);
+      }
       else fwrite(buf.data() + p, 1, e - p + 1, out);
       p = e + 1;
     }
     if (WIFSIGNALED(st)) {
       bool to = WTERMSIG(st) == SIGALRM;
       (to ? ntimeout : ncrash)++;
-      fprintf(out, "{\"e\":\"%s\",\"sig\":%d,\"during\":\"%s\"}\n", to ? "timeout" : "crash", WTERMSIG(st), last.c_str());
+      fprintf(out, "{\"e\":\"%s\",\"sig\":%d,\"h\":%d,\"during\":\"%s\"}\n", to ? "timeout" : "crash", WTERMSIG(st), last_h, last.c_str());
     } else if (WEXITSTATUS(st) != 0) {
       ncrash++;
-      fprintf(out, "{\"e\":\"crash\",\"sig\":0,\"exit\":%d,\"during\":\"%s\"}\n", WEXITSTATUS(st), last.c_str());
+      fprintf(out, "{\"e\":\"crash\",\"sig\":0,\"exit\":%d,\"h\":%d,\"during\":\"%s\"}\n", WEXITSTATUS(st), last_h, last.c_str());
     }
     fprintf(out, "{\"e\":\"End\"}\n");
   };
